@@ -200,6 +200,12 @@ impl Scheduler {
         // Record the spawn for metrics.
         state.record_task_spawned();
 
+        // If the pool is shutting down there may be no worker left to run (or drop) the task.
+        // Abandon whatever is queued on this processor so that join handles resolve.
+        if self.inner.is_shutting_down() {
+            state.abandon_queued_tasks();
+        }
+
         #[cfg(folo_verif)]
         crate::verif::sim_point("spawn:before-notify");
 
@@ -263,6 +269,12 @@ impl Scheduler {
 
         // Record the spawn for metrics.
         state.record_task_spawned();
+
+        // If the pool is shutting down there may be no worker left to run (or drop) the task.
+        // Abandon whatever is queued on this processor so that join handles resolve.
+        if self.inner.is_shutting_down() {
+            state.abandon_queued_tasks();
+        }
 
         #[cfg(folo_verif)]
         crate::verif::sim_point("spawn:before-notify");
